@@ -850,3 +850,88 @@ func genIterables(s *sink, quick bool) {
 		}
 	}
 }
+
+// genFormat: string.format and % interpolation with multi-field templates --
+// automatic / numbered / keyword fields, !r and !s conversions, format specs,
+// unknown conversions, missing positional and keyword arguments, brace
+// escapes -- every sequence of up to three template segments (two in the
+// quick tier, plus random longer ones) against several argument sets.
+func genFormat(s *sink, quick bool) {
+	s.pyEvery["format"], s.pyEvery["interp"] = 3, 3
+	segs := []string{"{}", "{0}", "{1}", "{a}", "{b}", "{!r}", "{!s}", "{0!r}", "{1!s}", "{a!r}", "{b!s}", "{:}", "{!r:}", "{:x}", "{!x}", "{!}",
+		"{a.b}", "{a[0]}", "{ }", "{{", "}}", "x", "-", "{", "}", "{2}", "{00}"}
+	type argset struct {
+		pos []V
+		kw  []V
+	}
+	q := vStr("it\"s")
+	nl := vStr("a\nb")
+	sets := []argset{
+		{nil, nil},
+		{strV("A"), nil},
+		{strV("A", "B"), nil},
+		{[]V{vInt(1), q}, []V{vStr("a"), vStr("K")}},
+		{[]V{vNone(), vList(vStr("q"), vInt(2)), vTuple(vInt(1))}, []V{vStr("a"), vInt(7), vStr("b"), nl}},
+		{strV("A"), []V{vStr("b"), vStr("B")}},
+		{[]V{vBool(true), vBytes("by")}, []V{vStr("a"), vTuple(vStr("t"))}},
+	}
+	emit := func(tpl string) {
+		recv := vStr(tpl)
+		for _, a := range sets {
+			x := recv
+			s.do(Case{Op: "call", Kind: "string", X: &x, Name: "format", Args: append([]V{}, a.pos...), Kw: append([]V{}, a.kw...), Class: "format"})
+		}
+	}
+	for _, a := range segs {
+		emit(a)
+		for _, b := range segs {
+			emit(a + b)
+			if !quick {
+				for _, c := range segs {
+					emit(a + b + c)
+				}
+			}
+		}
+	}
+	n := 4000
+	if quick {
+		n = 1500
+	}
+	for i := 0; i < n; i++ {
+		t := ""
+		for k := 3 + s.r.Intn(3); k > 0; k-- {
+			t += segs[s.r.Intn(len(segs))]
+		}
+		emit(t)
+	}
+	// % interpolation
+	convs := []string{"%s", "%r", "%d", "%x", "%X", "%o", "%i", "%c", "%%", "%(a)s", "%(b)r", "%(a)d", "%(c)s", "%", "%z", "x", "%(a", "%e"}
+	d1 := vDict(vStr("a"), vStr("A"), vStr("b"), vInt(2))
+	ops := []V{vStr("A"), vInt(5), vInt(-255), vTuple(vInt(1)), vTuple(vStr("a"), vStr("b")), vTuple(vStr("a"), vInt(2)), vTuple(vInt(1), vInt(2), vInt(3)), vTuple(),
+		d1, vDict(), vList(vInt(1), vStr("x")), vNone(), vBool(true), vF(2.0), vF(2.5), q, vTuple(q, nl), vTuple(vInt(97), vStr("z")), vBytes("b")}
+	emitp := func(tpl string) {
+		x := vStr(tpl)
+		for _, o := range ops {
+			s.do(Case{Op: "bin", Kind: "string", X: &x, Name: "%", Args: []V{o}, Class: "interp"})
+		}
+	}
+	emitp("")
+	for _, a := range convs {
+		emitp(a)
+		for _, b := range convs {
+			emitp(a + b)
+			if !quick {
+				for _, c := range convs {
+					emitp(a + b + c)
+				}
+			}
+		}
+	}
+	for i := 0; i < n/2; i++ {
+		t := ""
+		for k := 3 + s.r.Intn(2); k > 0; k-- {
+			t += convs[s.r.Intn(len(convs))]
+		}
+		emitp(t)
+	}
+}
